@@ -25,12 +25,15 @@ Vars == {"lx", "ly", "lz"}
 VarSeq == <<"lx", "ly", "lz">>
 VARIABLES l, val, ids, nextId, bad, failed, seen
 
-Fresh       == {"copy-list", "subseq", "reverse", "butlast", "mapcar", "list"}
-Destructive == {"setcar", "setnth", "rplaca", "nconc", "nreverse", "sort", "delete"}
-Setters     == {"setcar", "setnth", "rplaca"}
+Fresh       == {"copy-list", "subseq", "reverse", "butlast", "mapcar", "list", "append0", "append3"}
+Destructive == {"setcar", "setnth", "setelt", "rplaca", "rplacd", "nconc", "nreverse", "sort", "delete", "add"}
+Setters     == {"setcar", "setnth", "setelt", "rplaca"}
+\* push and pop change the place (the variable) they are given and nothing else
+PlaceOps    == {"push", "pop"}
 
 Rev(s) == [i \in 1..Len(s) |-> s[Len(s) + 1 - i]]
 Remove(a, s) == SelectSeq(s, LAMBDA e : e # a)
+RemoveOdd(s) == SelectSeq(s, LAMBDA e : e % 2 = 0)
 RECURSIVE Insert(_, _)
 Insert(e, s) == IF s = <<>> THEN <<e>> ELSE IF e <= s[1] THEN <<e>> \o s ELSE <<s[1]>> \o Insert(e, Tail(s))
 RECURSIVE Sort(_)
@@ -42,7 +45,12 @@ Drop(k, s) == IF k >= Len(s) THEN <<>> ELSE SubSeq(s, k + 1, Len(s))
 \* the value the language defines for the call, from the current contents
 Expect(e, v) ==
   LET s == v[e.src] IN
-  CASE e.op \in {"copy-list", "mapcar", "alias"} -> s
+  CASE e.op \in {"copy-list", "mapcar", "alias", "rest0"} -> s
+    [] e.op = "append0"               -> s \o <<e.a>>                       \* (append '() src (list a))
+    [] e.op = "append3"               -> s \o v[e.src2] \o <<e.a>>          \* (append src src2 (list a))
+    [] e.op = "add"                   -> s \o <<e.a>>
+    [] e.op = "remove-if"             -> RemoveOdd(s)
+    [] e.op = "rest"                  -> Drop(1, s)
     [] e.op = "subseq"                -> SubSeq(s, 1, e.k)
     [] e.op \in {"reverse", "nreverse"} -> Rev(s)
     [] e.op = "butlast"               -> IF Len(s) <= 1 THEN <<>> ELSE SubSeq(s, 1, Len(s) - 1)
@@ -76,8 +84,20 @@ Judge(e, v0, id0, n0) ==
     LET ch == Changed(e, v0, [x \in Vars |-> TRUE]) IN
     [val |-> [x \in Vars |-> e.vars[x]], ids |-> id0, nextId |-> n0,
      why |-> [i \in 1..Len(ch) |-> Why(e, ch[i], "changed-by-failed-call")]]
+  ELSE IF e.op \in PlaceOps THEN
+    \* (push a place) / (pop place): the variable is rebound, every other variable keeps its contents
+    LET newsrc == IF e.op = "push" THEN <<e.a>> \o v0[e.src] ELSE Drop(1, v0[e.src])
+        wantret == IF e.op = "push" THEN newsrc ELSE IF v0[e.src] = <<>> THEN <<>> ELSE <<v0[e.src][1]>>
+        free   == [x \in Vars |-> x # e.src]
+        ch     == Changed(e, v0, free)
+    IN [val |-> [x \in Vars |-> IF x = e.src THEN newsrc ELSE v0[x]],
+        ids |-> [x \in Vars |-> IF x = e.src /\ e.op = "push" THEN id0[x] \cup {n0} ELSE id0[x]],
+        nextId |-> n0 + 1,
+        why |-> (IF e.vars[e.src] # newsrc THEN <<Why(e, e.src, "place-effect")>> ELSE <<>>)
+                \o (IF e.ret # wantret THEN <<Why(e, e.src, "wrong-result")>> ELSE <<>>)
+                \o [i \in 1..Len(ch) |-> Why(e, ch[i], "changed-by-place-operation")]]
   ELSE IF e.op \in Setters THEN
-    LET k      == IF e.op = "setnth" THEN e.k + 1 ELSE 1
+    LET k      == IF e.op \in {"setnth", "setelt"} THEN e.k + 1 ELSE 1
         newsrc == [v0[e.src] EXCEPT ![k] = e.a]
         free   == [x \in Vars |-> x # e.src /\ id0[x] \cap id0[e.src] = {}]
         ch     == Changed(e, v0, free)
@@ -95,7 +115,7 @@ Judge(e, v0, id0, n0) ==
         ids |-> [x \in Vars |-> IF x = e.dst THEN ResultIds(e, id0, n0)
                                 ELSE IF free[x] THEN id0[x] ELSE id0[x] \cup id0[e.src]],
         nextId |-> n0 + 1,
-        why |-> (IF e.ret # exp THEN <<Why(e, e.dst, "wrong-result")>> ELSE <<>>)
+        why |-> (IF e.op # "rplacd" /\ e.ret # exp THEN <<Why(e, e.dst, "wrong-result")>> ELSE <<>>)
                 \o (IF e.vars[e.dst] # e.ret THEN <<Why(e, e.dst, "dst-not-result")>> ELSE <<>>)
                 \o [i \in 1..Len(ch) |-> Why(e, ch[i], IF destr THEN "independent-list-changed"
                                                                  ELSE "changed-by-nondestructive")]]
